@@ -29,6 +29,7 @@ type c11Spec struct {
 	Tool       bool   `json:"resetup_tool"`
 	SlowOwn    bool   `json:"own_statements_take_60ms"`
 	StartFails bool   `json:"first_start_replica_on_the_stale_master_fails"`
+	ListFails  bool   `json:"every_third_read_of_the_recovery_list_fails"` // a healthy replica kept marked by its resetup file, while every third GetChildren(recovery) fails
 }
 
 func c11Gen(seed int64, idx int) c11Spec {
@@ -47,6 +48,11 @@ func c11Gen(seed int64, idx int) c11Spec {
 	// one recovery check
 	sp.SlowOwn = sp.Family == "lifecycle" && r.Intn(2) == 0
 	sp.StartFails = sp.Family == "stale_master" && (idx/5)%2 == 0
+	if sp.Family == "lifecycle" && idx%5 != 0 && (sp.Relation == "behind" || sp.Relation == "equal") && sp.Repl == "running" && sp.RO {
+		// a clean, replicating replica that stays marked because its resetup file is there (nobody rebuilds it), and a
+		// coordination service that now and then fails the manager's read of the list of marked hosts
+		sp.ListFails, sp.Resetup, sp.Tool, sp.Stuck = true, true, false, false
+	}
 	return sp
 }
 
@@ -244,6 +250,17 @@ func c11Run(u *Unit) {
 	u.Scenario(fmt.Sprintf("c11-%d-%s-%s-%s", u.Idx, sp.Family, sp.Relation, sp.Repl), sp, opts, func(sc *Scen) {
 		s := sc.S
 		mon := newC11Monitor(sc)
+		var listArmed atomic.Bool
+		if sp.ListFails {
+			var nList atomic.Int64
+			s.DCSGate = func(name, method, path string) error {
+				if method == "GetChildren" && path == "recovery" && listArmed.Load() && nList.Add(1)%3 == 0 {
+					sc.Cover("read-of-the-recovery-list-failed-while-a-host-is-marked")
+					return fmt.Errorf("zk: connection closed (injected)")
+				}
+				return nil
+			}
+		}
 		s.Start()
 		time.Sleep(13 * time.Second)
 		w := s.W
@@ -298,6 +315,7 @@ func c11Run(u *Unit) {
 				s.O.WorkloadOnly = []string{master, h}
 			}
 			s.ZK.Put("operator", NS+"/recovery/"+h, "null")
+			listArmed.Store(true)
 		case "stale_master":
 			if sp.Second {
 				// the host is first away for longer than the inactivation delay (evicted from the list), and comes back
